@@ -63,7 +63,11 @@ CreqFailed(r) ==
   (IF r.raw = EncTx(m, FALSE) THEN {} ELSE {"C04.trxcon.burst-req.octets"})
   \cup (IF r.dec.ok /\ SameTx(m, r.dec.m) THEN {} ELSE {"C04.trxcon.burst-req.parsed"})
 
-Failed(r) == CASE r.e = "enc" -> EncFailed(r) [] r.e = "dec" -> DecFailed(r)
+\* a message outside the documented value ranges that the toolkit nevertheless accepted as valid
+\* (its own validate() passed): C01 speaks about "every message the toolkit accepts as valid"
+AccFailed(r) == IF r.err = "" /\ r.dec.ok /\ Same(r.cls, r.m, r.dec.m) THEN {} ELSE {"C01.roundtrip"}
+
+Failed(r) == CASE r.e = "enc" -> EncFailed(r) [] r.e = "dec" -> DecFailed(r) [] r.e = "acc" -> AccFailed(r)
                [] r.e = "cind" -> CindFailed(r) [] r.e = "creq" -> CreqFailed(r)
 
 RInit == i = 0
